@@ -577,6 +577,13 @@ fn check_bufsim(o: &Opts, prop: Prop) {
 		if !enough {
 			die(&format!("vacuous batch for {}: the operations the property is about were (almost) never executed: {:?}", prop.id(), stats.ops));
 		}
+		// silent discards must stay rare, otherwise the batch is decided on a thinned-out space
+		let c = |k: &str| stats.c.get(k).copied().unwrap_or(0);
+		for (k, limit) in [("generator_rejected", total / 1000), ("generator_gave_up", total / 1000), ("invalid_initial_state", total / 1000), ("runs_discarded_at_start", total / 1000), ("runs_abandoned_on_unarmed_failure", total / 100), ("invalid_after_conversion_run_abandoned", total / 100), ("conversion_panicked_run_abandoned", total / 100)] {
+			if c(k) > limit {
+				die(&format!("{} = {} in a batch of {} runs: too many runs are silently dropped for {} to be decided", k, c(k), total, prop.id()));
+			}
+		}
 	}
 	let wall = t0.elapsed().as_secs_f64();
 	// samples: the first three runs, re-executed here
@@ -918,6 +925,19 @@ fn check_allocsim(o: &Opts) {
 	}
 	if total >= 100_000 && (stats.c.get("valid_inputs").copied().unwrap_or(0) < total / 4 || stats.windows < total) {
 		die("vacuous batch for C20: too few valid inputs reached the accessors");
+	}
+	{
+		let panicked = stats.c.get("accessor_panicked").copied().unwrap_or(0) + stats.c.get("constructor_panicked").copied().unwrap_or(0);
+		if panicked > 0 {
+			println!("note: {} constructor/accessor calls panicked inside their window and could not be judged (C20 says nothing about panics)", panicked);
+		}
+		if panicked > stats.windows / 1000 {
+			die("too many constructor/accessor calls panic for C20 to be decided");
+		}
+		let gr = stats.c.get("generator_rejected").copied().unwrap_or(0);
+		if gr > total / 1000 {
+			die("the library rejects too many inputs the generator built as valid: C20 would be decided on a thinned-out input space");
+		}
 	}
 	let wall = t0.elapsed().as_secs_f64();
 	let mut samples = Vec::new();
